@@ -48,3 +48,25 @@ void h_PressureRisingBeyond__run(void)
   PressureRisingBeyond__run(self, ctx);
   __CPROVER_assert(0, "canary: contract precondition satisfiable and function exit reachable");
 }
+
+/* ================= init(): the arguments this plugin declares (C12) =================
+ * Names and required flags as documented in docs/core_plugins.md, with one deliberate difference: `cgroup` is declared
+ * optional by every plugin except senpai, because a ruleset-level `cgroup` supplies it per instance
+ * (Ruleset::registerRunnableRulesetForCgroupPath, unit ruleset_cgroup). */
+#include "init_common.h"
+DEF_PARSE(PluginArgParser)
+uset_CgroupPath PluginArgParser__parseCgroup(PluginConstructionContext c, str_t s);
+void PluginArgParser__addArgumentCustom__str_t_uset_CgroupPath_function_t__Bool(PluginArgParser p, str_t name, uset_CgroupPath dest, function_t fn, _Bool required)
+{ __CPROVER_assert(fn == (function_t)7, "the cgroup argument is parsed by PluginArgParser::parseCgroup with this plugin's construction context"); REG(name, (const void *)(long)dest, required, 1); }
+#define lambda_bind__PressureRisingBeyond__init__lambda_addArgumentCustom(ctx) ((lambda_t)7)
+DEF_ADDARG(ResourceType, ResourceType)
+DEF_ADDARG(int, int)
+void PluginArgParser__addArgument__str_t_float__Bool(PluginArgParser p, str_t name, float *dest, _Bool required) { REG(name, dest, required, 0); }
+int PressureRisingBeyond__init(PressureRisingBeyond *self, umap_str_t_str_t args, PluginConstructionContext context)
+  __CPROVER_requires(__CPROVER_is_fresh(self, sizeof(*self)) && ghost_exc == 0 && g_reg_n == 0 && g_parse_calls == 0)
+  __CPROVER_assigns(REG_ASSIGNS)
+  __CPROVER_ensures(INIT_CORE(5)) /*@C12*/
+  __CPROVER_ensures(HASREG(STR_cgroup, (long)self->cgroups_, 0) && HASREG(STR_resource, &self->resource_, 1) && HASREG(STR_threshold, &self->threshold_, 1) && HASREG(STR_duration, &self->duration_, 1) &&
+                    HASREG(STR_fast_fall_ratio, &self->fast_fall_ratio_, 0)) /*@C12,C08*/
+  __CPROVER_ensures(ghost_exc == 0);
+void h_PressureRisingBeyond__init(void) { PressureRisingBeyond *self; umap_str_t_str_t a; PluginConstructionContext c; HAVOC_REG(); HAVOC(ghost_exc); PressureRisingBeyond__init(self, a, c); __CPROVER_assert(0, "canary: contract precondition satisfiable and function exit reachable"); }
